@@ -140,6 +140,10 @@ class MTable:
                         raise Reject("offset leaves the table")
                 return list(range(n))[slice(ia, ib)]
             if isinstance(c, str):
+                if c not in self.data:
+                    # not a column of THIS table (e.g. a scalar entry that is a column only in a sibling table): what a value
+                    # range over it means is not specified
+                    raise Reject("value range over something that is not a column")
                 col = self.data[c]
                 return [i for i, v in enumerate(col) if (a is None or v >= a) and (b is None or v <= b)]
             return list(range(n))[sel]
